@@ -79,7 +79,11 @@ func Start(prop string) *R {
 	r.out = os.Getenv("VERIF_OUT")
 	r.replayDir = os.Getenv("VERIF_REPLAY_DIR")
 	if r.replayDir == "" {
-		r.replayDir = "/verif/replays/" + prop
+		root := os.Getenv("VERIF_ROOT")
+		if root == "" {
+			root = "/verif"
+		}
+		r.replayDir = root + "/replays/" + prop
 	}
 	if f := os.Getenv("VERIF_REPLAY"); f != "" {
 		bz, err := os.ReadFile(f)
